@@ -109,7 +109,7 @@ def _sanitizer_run(kind, pid, tier, seed, scale, wdir, shards, shard_scale, extr
         opt = 'TSAN_OPTIONS' if kind == 'tsan' else 'ASAN_OPTIONS'
         env[opt] = env.get(opt, '') + ':log_path=%s.%d' % (logbase, i)
         cmd = [binp, 'run', pid, '--tier', 'quick', '--seed', str(seed + 7), '--scale', str(shard_scale), '--shard', str(i), '--nshards', str(shards), '--out', outp,
-               '--mem-mb', '65536000', '--case-budget-ms', '600000']
+               '--mem-mb', '0', '--case-budget-ms', '600000']
         return i, _run(cmd, env, 3 * 3600, cwd=VERIF), outp
 
     import json
@@ -133,7 +133,9 @@ def _sanitizer_run(kind, pid, tier, seed, scale, wdir, shards, shard_scale, extr
             continue
         txt = open(os.path.join(wdir, f), errors='replace').read()
         for block in re.split(r'(?=WARNING: ThreadSanitizer|ERROR: AddressSanitizer)', txt):
-            if 'Sanitizer' not in block[:60]:
+            if not block.startswith(('WARNING: ThreadSanitizer', 'ERROR: AddressSanitizer')):
+                if 'FATAL' in block[:200]:
+                    res['inconclusive'] = 'sanitizer runtime failure: ' + block[:200]
                 continue
             res['reports'] += 1
             head = block.splitlines()[0][:160]
